@@ -227,7 +227,10 @@ func (v *Voucher) VerifyCertChainHash() error {
 	}
 
 	cchash := v.Header.Val.CertChainHash
-	digest := cchash.Algorithm.HashFunc().New()
+	digest, err := newHash(cchash.Algorithm)
+	if err != nil {
+		return fmt.Errorf("error computing hash: %w", err)
+	}
 	for _, cert := range *v.CertChain {
 		if _, err := digest.Write(cert.Raw); err != nil {
 			return fmt.Errorf("error computing hash: %w", err)
